@@ -1,5 +1,5 @@
 (* GENERATED from /repo/Python/dawgie/pl/farm.py -- do not edit *)
-From Coq Require Import List ZArith Bool.
+From Coq Require Import List Arith ZArith Bool.
 From DV Require Import Model.Sched.
 Import ListNotations.
 (* ---- fixed prelude of the translation ---- *)
@@ -32,3 +32,53 @@ Definition comparator (cpu : msg -> Z) (msg_a_ : msg) (msg_b_ : msg) : Z :=
   result_.
 Definition cluster_sort (cpu : msg -> Z) (l : list msg) : list msg :=
   fold_left (fun acc m => ins_cmp (comparator cpu) m acc) l [].
+(* _workers_sort sha256=eef6708760f7b758 -- shape-checked statement by statement:
+     wg = {host: [] for host in set(hosts)} ; wk = sorted(wg)
+     for worker in _workers: wg[host of worker].append(worker)
+     _workers.clear()
+     while sum(len(v) for v in wg.values()):
+         longest = []
+         for k in wk:
+             if len(wg[k]) > len(longest): longest = wg[k]      <- the comparison is read from the source
+         _workers.append(longest.pop(0))
+   A worker is (id, host); wg is an association list whose keys are wk (sorted
+   hosts).  `longest` aliases one of the lists of wg: it is kept as the key of
+   that list (None = the fresh []), pop(0) removes the head of that list in
+   wg.  The while loop runs on fuel = number of workers (every iteration pops
+   one).  None = IndexError (pop from the fresh []) / fuel exhausted. *)
+Definition ws_keys (w : list (wid * nat)) : list nat :=
+  sort_nat (fold_left (fun acc p => add (snd p) acc) w []).
+Fixpoint ws_append (h : nat) (x : wid * nat) (wg : list (nat * list (wid * nat))) :=
+  match wg with
+  | [] => []
+  | (k, g) :: r => if Nat.eqb k h then (k, g ++ [x]) :: r else (k, g) :: ws_append h x r
+  end.
+Definition ws_groups (w : list (wid * nat)) : list (nat * list (wid * nat)) :=
+  fold_left (fun wg worker => ws_append (snd worker) worker wg) w (map (fun k => (k, [])) (ws_keys w)).
+Definition ws_total (wg : list (nat * list (wid * nat))) : nat :=
+  fold_left (fun a kv => a + length (snd kv)) wg 0.
+Definition ws_longest (wg : list (nat * list (wid * nat))) : option nat * list (wid * nat) :=
+  fold_left (fun best kv => if length (snd best) <? length (snd kv) then (Some (fst kv), snd kv) else best) wg (None, []).
+Fixpoint ws_pop (k : nat) (wg : list (nat * list (wid * nat)))
+  : option ((wid * nat) * list (nat * list (wid * nat))) :=
+  match wg with
+  | [] => None
+  | (k', g) :: r =>
+    if Nat.eqb k' k then match g with [] => None | x :: g' => Some (x, (k', g') :: r) end
+    else match ws_pop k r with Some (x, r') => Some (x, (k', g) :: r') | None => None end
+  end.
+Fixpoint ws_loop (fuel : nat) (wg : list (nat * list (wid * nat))) (acc : list (wid * nat))
+  : option (list (wid * nat)) :=
+  if Nat.eqb (ws_total wg) 0 then Some acc else
+  match fuel with
+  | 0 => None
+  | S f => match fst (ws_longest wg) with
+           | None => None
+           | Some k => match ws_pop k wg with
+                       | None => None
+                       | Some (x, wg') => ws_loop f wg' (acc ++ [x])
+                       end
+           end
+  end.
+Definition workers_sort (w : list (wid * nat)) : option (list (wid * nat)) :=
+  ws_loop (length w) (ws_groups w) [].
